@@ -54,3 +54,41 @@ impl VIndexedPriorityQueue {
         self.0.extract(InsertKey::from_raw_parts(slab_idx, epoch))
     }
 }
+
+use crate::time::{MonotonicTime, TearableAtomicTime};
+use crate::util::sync_cell::{SyncCell, SyncCellReader};
+
+/// `util::sync_cell::SyncCell<TearableAtomicTime>` (the simulation time cell).
+pub struct VSyncCell(SyncCell<TearableAtomicTime>);
+
+/// `util::sync_cell::SyncCellReader<TearableAtomicTime>`.
+#[derive(Clone)]
+pub struct VSyncCellReader(SyncCellReader<TearableAtomicTime>);
+
+impl VSyncCell {
+    pub fn new(secs: i64, nanos: u32) -> Self {
+        Self(SyncCell::new(TearableAtomicTime::new(
+            MonotonicTime::new(secs, nanos).unwrap(),
+        )))
+    }
+    pub fn write(&self, secs: i64, nanos: u32) {
+        self.0.write(MonotonicTime::new(secs, nanos).unwrap())
+    }
+    pub fn read(&self) -> (i64, u32) {
+        let t = self.0.read();
+        (t.as_secs(), t.subsec_nanos())
+    }
+    pub fn reader(&self) -> VSyncCellReader {
+        VSyncCellReader(self.0.reader())
+    }
+}
+
+impl VSyncCellReader {
+    pub fn try_read(&self) -> Option<(i64, u32)> {
+        self.0.try_read().ok().map(|t| (t.as_secs(), t.subsec_nanos()))
+    }
+    pub fn read(&self) -> (i64, u32) {
+        let t = self.0.read();
+        (t.as_secs(), t.subsec_nanos())
+    }
+}
